@@ -188,6 +188,14 @@ class Check(object):
                 samples.append(s)
             per_part[name] = dict(r.stats.as_dict(), wall_s=round(r.wall, 1),
                                   exhausted=r.exhausted, shards=len(r.per_shard))
+        # recorded findings that were observed on explored paths of this run
+        try:
+            kf = known_findings(self.prop)
+        except Exception:  # noqa
+            kf = {}
+        for fid, n in sorted(total.known.items()):
+            if n and fid in kf and not any((" %s:" % fid) in ln for ln in self.known_lines):
+                self.known_finding(fid, "%s (met on %d explored paths)" % (kf[fid].get("short", kf[fid]["what"][:160]), n))
         unmet = [g for g in self.goals_required if not total.goals.get(g)]
         if unmet:
             self.inconclusive.append("coverage goals never witnessed: %s" % ", ".join(unmet))
